@@ -31,7 +31,12 @@ def units(tier, seed):
         for en in envs:
             for pad in [(0, 0), (1, 0), (0, 1), (1, 1)]:
                 for seplens in [(0, 0), (1, 0), (0, 1), (2, 0), (1, 1)]:
-                    body = {'itemize': '\\item x', 'verbatim': '\\c {a}$', 'lstlisting': ' {b\n'}.get(en, 'x\\c {a}')
+                    for body in {'itemize': ['\\item x'], 'verbatim': ['\\c {a}$', '\\c {a}'], 'lstlisting': [' {b\n', 'x\\c  [a]{b}'],
+                                 'equation': ['x\\c {a}', '\\item x'], 'align*': ['x\\c {a}', '\\item x']}.get(en, ['x\\c {a}']):
+                        if q and (pad != (0, 0) and seplens not in [(0, 0), (1, 1)]):
+                            continue
+                        out.append(dict(hfile='blanks.py', fname='blanks_env', args=(ci, en, pad, seplens, body), max_paths=100000))
+                    continue
                     if q and (pad != (0, 0) and seplens not in [(0, 0), (1, 1)]):
                         continue
                     out.append(dict(hfile='blanks.py', fname='blanks_env', args=(ci, en, pad, seplens, body), max_paths=100000))
